@@ -18,6 +18,9 @@ PAT_SAMPLES = {
     "^\\d{2,3}$": (["12", "123"], ["1", "1234", "ab", ""]),
     "é": (["é", "aéb"], ["e", "", "abc"]),
     "^.{2,4}$": (["ab", "日本", "abcd", "éé"], ["a", "", "abcde", "é"]),
+    "^[a-z]*$": (["", "a", "hello"], ["A", "a1", "é"]),
+    "^x?$": (["", "x"], ["xx", "y"]),
+    "^[a-z.]+$": (["a.b", "host.example", "abc"], ["", "A", "a_b"]),
 }
 FORMAT_SAMPLES = {
     "uuid": (["123e4567-e89b-12d3-a456-426614174000"], ["not-a-uuid", "", "123e4567"]),
@@ -37,7 +40,7 @@ ALL_FEATURES = {
     "str_enum", "int_enum", "object", "closed_object", "addl_schema", "map", "array", "set", "tuple", "fixed_array",
     "nullable_type", "nullable_oneof", "nullable_anyof_ref", "ref", "recursion",
     "oneof_external", "oneof_internal", "oneof_adjacent", "oneof_untagged", "anyof_exclusive", "allof_objects",
-    "rename", "defaults", "oneof_optional_const", "mixed_closedness", "multi_tag_values",
+    "rename", "defaults", "oneof_optional_const", "mixed_closedness", "multi_tag_values", "boundary",
 }
 
 
@@ -59,8 +62,29 @@ class Gen:
     def tag(self, t):
         self.tags.append(t)
 
+    BOUNDARY_SCALARS = [
+        {"type": "string", "minLength": 0}, {"type": "string", "maxLength": 0},
+        {"type": "string", "minLength": 0, "maxLength": 0}, {"type": "string", "minLength": 2, "maxLength": 2},
+        {"type": "string", "minLength": 0, "pattern": "^[a-z]*$"}, {"type": "string", "maxLength": 0, "pattern": "^x?$"},
+        # (string constraints under an UNRECOGNISED format are dropped by typify: such schemas are not "built from
+        #  enforced constructs" and stay out of this shared stream; C17 / C10 cover the format table)
+        {"type": "string", "format": "ipv4-network"}, {"type": "string", "format": "hostname"},
+        {"type": "string", "const": "only"}, {"type": "string", "enum": ["solo"]},
+        {"type": "integer", "minimum": 5, "maximum": 5}, {"type": "integer", "format": "uint8", "minimum": 0, "maximum": 255},
+        {"type": "integer", "format": "uint8", "minimum": 1}, {"type": "integer", "format": "int8", "minimum": -128, "maximum": 127},
+        {"type": "integer", "minimum": 0, "exclusiveMinimum": -1, "format": "uint32"},
+        {"type": "integer", "minimum": 1, "maximum": 4294967295}, {"type": "integer", "minimum": 0, "maximum": 4294967296},
+        {"type": "integer", "multipleOf": 5}, {"type": "integer", "minimum": 0, "maximum": 100, "multipleOf": 10},
+        {"type": "integer", "const": 7}, {"type": "integer", "enum": [0]},
+        {"type": "number", "minimum": 0}, {"type": "number", "format": "float"}, {"type": "number", "format": "double", "maximum": 1.5},
+        {"type": "boolean", "const": True}, {"type": "boolean", "enum": [False]},
+    ]
+
     def scalar(self):
         r = self.rnd
+        if self.has("boundary") and r.random() < 0.12:
+            self.tag("boundary")
+            return copy.deepcopy(self.pick(self.BOUNDARY_SCALARS))
         kinds = [k for k in ("bool", "int", "number", "string", "null") if self.has(k)]
         k = self.pick(kinds or ["string"])
         if k == "bool":
@@ -123,6 +147,11 @@ class Gen:
     def length_keywords(self, a):
         """minItems / maxItems on a variable-length array (never equal: that is the fixed-array form)"""
         x = self.rnd.random()
+        if self.has("boundary") and x > 0.9:
+            self.tag("boundary")
+            a.update(self.pick([{"minItems": 0}, {"maxItems": 0}, {"minItems": 0, "maxItems": 1}, {"uniqueItems": False},
+                                {"minItems": 3}, {"maxItems": 1}]))
+            return
         if x < 0.2:
             a["minItems"] = self.pick([1, 2])
         elif x < 0.3:
@@ -479,7 +508,9 @@ class Inst:
     def string_for(self, s):
         r = self.rnd
         if "pattern" in s:
-            return self.pick(PAT_SAMPLES[s["pattern"]][0])
+            ok = [x for x in PAT_SAMPLES[s["pattern"]][0]
+                  if s.get("minLength", 0) <= len(x) <= s.get("maxLength", 10 ** 6)]
+            return self.pick(ok or PAT_SAMPLES[s["pattern"]][0])
         if s.get("format") in FORMAT_SAMPLES:
             return self.pick(FORMAT_SAMPLES[s["format"]][0])
         lo = s.get("minLength", 0)
@@ -501,6 +532,9 @@ class Inst:
         if "exclusiveMaximum" in s:
             hi = min(hi, s["exclusiveMaximum"] - 1)
         c = [lo, hi, lo + (hi - lo) // 2, max(lo, min(hi, 0)), max(lo, min(hi, 1))]
+        m = s.get("multipleOf")
+        if isinstance(m, int) and m > 0:
+            c = [x - x % m for x in c if lo <= x - x % m <= hi] or [-(-lo // m) * m]
         return self.pick(c)
 
     def gen(self, s, depth=0, minimal=False):
@@ -513,6 +547,8 @@ class Inst:
             return None     # unproductive recursion (e.g. anyOf [$ref self, …]); the oracle has the last word
         if "$ref" in s:
             return self.gen(self.doc["definitions"][s["$ref"].split("/")[-1]], depth + 1, minimal)
+        if "const" in s:
+            return copy.deepcopy(s["const"])
         if "enum" in s:
             return self.pick(s["enum"])
         if "oneOf" in s or "anyOf" in s:
@@ -542,7 +578,9 @@ class Inst:
         if t == "integer":
             return self.int_for(s)
         if t == "number":
-            return self.pick([0, 1.5, -2.25, 3, 1e3, 0.5])
+            c = [x for x in [0, 1.5, -2.25, 3, 1e3, 0.5]
+                 if s.get("minimum", x) <= x <= s.get("maximum", x)]
+            return self.pick(c or [s.get("minimum", s.get("maximum", 0))])
         if t == "string":
             return self.string_for(s)
         if t == "array":
